@@ -6,6 +6,8 @@ import Mingus.Model.Chords
 import Mingus.Model.Progressions
 import Mingus.Model.Value
 import Mingus.Model.Note
+import Mingus.Model.Float
+import Mingus.Model.Machines
 /- Line-protocol dispatch: function name + decoded arguments → observation. -/
 namespace Mingus
 open Val
@@ -206,7 +208,31 @@ def dispatchNote : String → List Val → Option Val
       | .ok n => noteVal (n.changeOctave d) | .error e => .err e)
   | _, _ => none
 
+def dispatchFloat : String → List Val → Option Val
+  | "float.round", [a] => (ratOf a).map fun x => ratVal (F64.round x)
+  | "float.add", [a, b] => match ratOf a, ratOf b with | some x, some y => some (ratVal (F64.add x y)) | _, _ => Option.none
+  | "float.sub", [a, b] => match ratOf a, ratOf b with | some x, some y => some (ratVal (F64.sub x y)) | _, _ => Option.none
+  | "float.mul", [a, b] => match ratOf a, ratOf b with | some x, some y => some (ratVal (F64.mul x y)) | _, _ => Option.none
+  | "float.div", [a, b] => match ratOf a, ratOf b with | some x, some y => some (ratVal (F64.div x y)) | _, _ => Option.none
+  | _, _ => none
+
+def dispatchMachines : String → List Val → Option Val
+  | "nc.run", [list ops] => Machines.ncRun ops
+  | "bar.run", [str key, int count, u, list ops] => (ratOf u).bind fun q => Machines.barRun key count q ops
+  | "track.run", [str instr, list ops] => Machines.trackRun instr ops
+  | "comp.run", [list ops] => Machines.compRun ops
+  | "nc.from_chord", [str sh] => some (match Containers.NC.fromChordShorthand sh with
+      | .ok l => Machines.ncOut l | .error e => .err e)
+  | "nc.from_interval", [str nm, int o, str sh, Val.bool up] =>
+      some (match Containers.NC.fromIntervalShorthand ⟨nm, o, 1, 64⟩ sh up with | .ok l => Machines.ncOut l | .error e => .err e)
+  | "nc.from_progression", [str sh, str key] =>
+      some (match Containers.NC.fromProgressionShorthand sh key with
+        | .ok (some l) => Machines.ncOut l | .ok Option.none => .bool false | .error e => .err e)
+  | _, _ => none
+
 def dispatch (fn : String) (args : List Val) : Option Val :=
+  (dispatchMachines fn args).orElse fun _ =>
+  (dispatchFloat fn args).orElse fun _ =>
   (dispatchNote fn args).orElse fun _ =>
   (dispatchValue fn args).orElse fun _ =>
   (dispatchProg fn args).orElse fun _ =>
